@@ -31,7 +31,7 @@ RULE = ("seeded bench sessions: 2-4 simulated users interleave public calls (dev
         "and faults (failed calls, retH early returns, clock jump/back/stall/mid-call, rng reseed/unseeded state, "
         "scribble, freeze, warnings filters, print state); distinct = (grid signature, call-name bigram, faults since "
         "last call) signatures in runs with >=3 successful calls")
-WALL = {"quick": 240, "thorough": 400, "replay": 300}
+WALL = {"quick": 300, "thorough": 900, "replay": 600}
 BLOCK = {"quick": 100000, "thorough": 2048}
 SELFTEST = {"quick": 12, "thorough": 60}
 COMPONENTS_REAL = ["opticomlib.typing (gv singleton, signal classes)", "opticomlib.devices (PRBS DAC LASER PM MZM BPF EDFA DM "
@@ -150,7 +150,7 @@ def generate(seed, tier):
         elif k == "failed":
             ops.append({"op": "failed", "what": rng.choice(sorted(FAILED)), "in": {t: rng.getrandbits(12) for t in "OE"},
                         "bits": rng.getrandbits(12)})
-    return {"pool_seed": rng.getrandbits(31), "users": n_users}, ops
+    return {"pool_seed": rng.getrandbits(31), "users": n_users, "scale": 64 if rng.random() < 0.012 else 1}, ops
 
 
 def simplify_op(op):
@@ -427,17 +427,20 @@ class Bench:
         self.last_call = "-"
         self.faults_since = []
         self.history = []        # (op, inputs) of earlier calls, for recall
-        self._build_pool(cfg.get("pool_seed", 0))
+        self._build_pool(cfg.get("pool_seed", 0), int(cfg.get("scale", 1)))
 
     # -- static shared inputs (harness-made, numpy only + constructors) ------------------------
-    def _build_pool(self, seed):
+    def _build_pool(self, seed, scale=1):
+        """scale > 1: a few sessions work on long records (size-dependent fast paths)."""
         rs = np.random.RandomState(seed)
         ty = self.L.ty
-        b1 = rs.randint(0, 2, 64).astype(np.uint8)
+        if scale > 1:
+            self.rec.probe("session on long records")
+        b1 = rs.randint(0, 2, 64 * scale).astype(np.uint8)
         b1[:4] = [1, 0, 1, 1]
         b2 = rs.randint(0, 2, 96).astype(np.uint8)
-        onehot = np.zeros(64, dtype=np.uint8)
-        onehot[rs.randint(0, 4, 16) + 4 * np.arange(16)] = 1
+        onehot = np.zeros(64 * scale, dtype=np.uint8)
+        onehot[rs.randint(0, 4, 16 * scale) + 4 * np.arange(16 * scale)] = 1
         for b in (b1, b2, onehot):
             self._add("bits", ty.binary_sequence(b), static=True)
         w1 = np.kron(b1, np.ones(16)) * 1.0
@@ -445,7 +448,7 @@ class Bench:
         w2 = np.kron(b2, np.ones(8)) * 0.5 + 0.1
         self._add("E", ty.electrical_signal(w2), static=True)
         self._add("E", ty.electrical_signal(rs.uniform(0, 1, 128), rs.normal(0, 0.01, 128)), static=True)
-        n = 1024
+        n = 1024 * scale
         t = np.arange(n)
         f1 = 0.03 * (0.6 + 0.4 * np.kron(b1, np.ones(16))) * np.exp(1j * 0.02 * t)
         self._add("O", ty.optical_signal(f1, 1e-3 * (rs.randn(n) + 1j * rs.randn(n))), static=True)
@@ -458,9 +461,9 @@ class Bench:
         self._add("eye", e, static=True)
         # caller-owned plain ndarrays: a time vector that does not start at 0, drive waveforms, a threshold array
         self._add("arr", (np.arange(256) + 37) * 6.25e-11, static=True)
-        self._add("arr", rs.uniform(-4, 4, 1024), static=True)
+        self._add("arr", rs.uniform(-4, 4, 1024 * scale), static=True)
         self._add("arr", rs.uniform(-4, 4, 256), static=True)
-        self._add("arr", rs.uniform(0.2, 0.8, 1024), static=True)
+        self._add("arr", rs.uniform(0.2, 0.8, 1024 * scale), static=True)
 
     def _bufs(self, o):
         if isinstance(o, np.ndarray):
@@ -711,7 +714,7 @@ class Bench:
                 if np.all(np.isfinite(r.signal)) and (r.noise is None or np.all(np.isfinite(r.noise))) and len(r) >= 32:
                     self._add("E", r)
             elif isinstance(r, ty.binary_sequence):
-                if 8 <= len(r) <= 4096:
+                if 8 <= len(r) <= 300000:
                     self._add("bits", r)
             elif isinstance(r, ty.eye):
                 self._add("eye", r)
